@@ -8,8 +8,11 @@ package probdist
 import (
 	"bytes"
 	"encoding/binary"
+	"encoding/hex"
+	"encoding/json"
 	"fmt"
 	"math"
+	"os"
 	"sync"
 	"testing"
 
@@ -19,11 +22,63 @@ import (
 	"gitlab.com/yawning/obfs4.git/common/drbg"
 	"gitlab.com/yawning/obfs4.git/internal/verifkit/detrand"
 	"gitlab.com/yawning/obfs4.git/internal/verifkit/ev"
+	"gitlab.com/yawning/obfs4.git/internal/verifkit/refdist"
 	"gitlab.com/yawning/obfs4.git/internal/verifkit/refsip"
 )
 
+// vf12RejectionSeeds: seeds for which the deployed mapping runs through a
+// rejection of math/rand's Int31n while shuffling 0..1448 (about one seed in
+// 4000); found with the reference (TestVerifC12FindRejectionSeeds) and stored
+// in /verif/corpus/c12_rejection_seeds.json.
+var (
+	vf12RejOnce sync.Once
+	vf12Rej     [][]byte
+)
+
+func vf12RejectionSeeds() [][]byte {
+	vf12RejOnce.Do(func() {
+		raw, err := os.ReadFile(os.Getenv("VERIF_DIR") + "/corpus/c12_rejection_seeds.json")
+		if err != nil {
+			return
+		}
+		var hx []string
+		if json.Unmarshal(raw, &hx) != nil {
+			return
+		}
+		for _, h := range hx {
+			if b, err := hex.DecodeString(h); err == nil && len(b) == 24 {
+				vf12Rej = append(vf12Rej, b)
+			}
+		}
+	})
+	return vf12Rej
+}
+
+func TestVerifC12FindRejectionSeeds(t *testing.T) {
+	path := os.Getenv("VERIF_GEN_SEEDS")
+	if path == "" {
+		t.Skip("set VERIF_GEN_SEEDS to regenerate")
+	}
+	var out []string
+	for j := uint64(0); len(out) < 96; j++ {
+		s := detrand.Bytes(0xc1200000000+j, 24)
+		if d := refdist.New(s, 0, 1448, j%2 == 0); d.Rejections > 0 {
+			out = append(out, hex.EncodeToString(s))
+		}
+	}
+	js, _ := json.MarshalIndent(out, "", " ")
+	if err := os.WriteFile(path, js, 0o644); err != nil {
+		t.Fatal(err)
+	}
+}
+
 func vf12Seed(rt *rapid.T, label string) []byte {
-	switch rapid.IntRange(0, 5).Draw(rt, label+"Class") {
+	switch rapid.IntRange(0, 6).Draw(rt, label+"Class") {
+	case 6:
+		if rs := vf12RejectionSeeds(); len(rs) > 0 {
+			return append([]byte(nil), rs[rapid.IntRange(0, len(rs)-1).Draw(rt, label+"Rej")]...)
+		}
+		return detrand.Bytes(rapid.Uint64().Draw(rt, label), 24)
 	case 0:
 		s := make([]byte, 24)
 		s[rapid.IntRange(0, 23).Draw(rt, label+"Byte")] = byte(rapid.IntRange(0, 255).Draw(rt, label+"Val"))
@@ -50,9 +105,10 @@ func TestVerifC12Dist(t *testing.T) {
 		t.Fatalf("INFRA: %v", err)
 	}
 	c := ev.For("C12")
-	c.Rule("dist: generated seed (uniform, single non-zero byte, all-ff), bounds (0,1448) / (0,100) / (21,1448) / small ranges min..min+k with k <= 4, both bias settings; oracle: New twice and Reset on an instance seeded otherwise give identical value/weight/alias/prob tables; 1 <= len(values) <= min(100, range), values distinct and inside the range; 300 samples lie in the table and in [min,max]; alias indices in range, prob in [0,1], and the exact sampling probability of every value reconstructed from the alias tables equals its normalised weight within 1e-9; tables differ across seeds; non-trivial = table with >= 2 entries; fingerprint = seed, bounds, bias")
+	c.Rule("dist: generated seed (uniform, single non-zero byte, all-ff, or one of 96 stored seeds for which the shuffle of 0..1448 passes through a rejected draw), bounds (0,1448) / (0,100) / (21,1448) / small ranges min..min+k with k <= 4, both bias settings; oracle: value list and weights equal, bit for bit, the independent statement of the deployed seed -> table mapping (refdist: SipHash OFB read through the documented algorithms of math/rand); New twice and Reset on an instance seeded otherwise give identical value/weight/alias/prob tables; 1 <= len(values) <= min(100, range), values distinct and inside the range; 300 samples lie in the table and in [min,max]; alias indices in range, prob in [0,1], and the exact sampling probability of every value reconstructed from the alias tables equals its normalised weight within 1e-9; tables differ across seeds; non-trivial = table with >= 2 entries; fingerprint = seed, bounds, bias")
 	c.Floor("dist-biased/dist", 0.3)
 	c.Floor("dist-small-range/dist", 0.15)
+	c.Floor("dist-seed-with-rejected-draw/dist", 0.01)
 	rapid.Check(t, func(rt *rapid.T) {
 		seedB := vf12Seed(rt, "seed")
 		seed, err := drbg.SeedFromBytes(seedB)
@@ -78,6 +134,19 @@ func TestVerifC12Dist(t *testing.T) {
 			cls = append(cls, "dist-biased")
 		}
 		w1 := New(seed, min, max, biased)
+		// what the seed denotes as deployed (independent reference)
+		ref := refdist.New(seedB, min, max, biased)
+		if len(ref.Values) != len(w1.values) {
+			rt.Fatalf("VIOL[c12-differs-from-deployed-mapping]: New(seed %x, %d, %d, %v) has %d values, the deployed seed -> table mapping gives %d", seedB, min, max, biased, len(w1.values), len(ref.Values))
+		}
+		for i := range ref.Values {
+			if min+w1.values[i] != ref.Values[i] || math.Float64bits(w1.weights[i]) != math.Float64bits(ref.Weights[i]) {
+				rt.Fatalf("VIOL[c12-differs-from-deployed-mapping]: New(seed %x, %d, %d, %v): entry %d is (%d, %v), the deployed seed -> table mapping gives (%d, %v)", seedB, min, max, biased, i, min+w1.values[i], w1.weights[i], ref.Values[i], ref.Weights[i])
+			}
+		}
+		if ref.Rejections > 0 {
+			cls = append(cls, "dist-seed-with-rejected-draw")
+		}
 		w2 := New(seed, min, max, biased)
 		if vf12Tables(w1) != vf12Tables(w2) {
 			rt.Fatalf("VIOL[c12-not-deterministic]: New(seed %x, %d, %d, %v) twice gives different tables", seedB, min, max, biased)
